@@ -462,19 +462,35 @@ def run(repo, tier):
         r.ob("R4.2", f"{REL}::Rewriter.{k} relation", ok_l, f"lambda is `{norm_src(lam)}`", loc(REL, c))
         r.ob("R4.2", f"{REL}::Rewriter.{k} column index", i == COLS.index(k), f"relop_index={i}, the `{k}` column is {COLS.index(k)}", loc(REL, c))
         r.ob("R4.2", f"{REL}::Rewriter.{k} swapped column index", j == COLS.index(MIRROR[k]), f"swap_relop_index={j}, the mirrored relation `{MIRROR[k]}` is column {COLS.index(MIRROR[k])}", loc(REL, c))
-    # which index is used on which side
+    # which index is used on which side: the looked-up constant comes from operand 0 (left) or operand 1 (right) of the comparison
+    cmpf = repo.func(REL, "Rewriter._compare")
+    operand_pos = {}
+    for st in ast.walk(cmpf):
+        if isinstance(st, ast.Assign) and isinstance(st.targets[0], ast.Tuple) and norm_src(st.value) == "expr.operands" and len(st.targets[0].elts) == 2:
+            for k_, e_ in enumerate(st.targets[0].elts):
+                if isinstance(e_, ast.Name):
+                    operand_pos[e_.id] = k_
+    value_side = {}
+    for st in ast.walk(cmpf):
+        if isinstance(st, ast.Assign) and isinstance(st.targets[0], ast.Tuple) and isinstance(st.value, ast.Attribute) and st.value.attr == "operands" \
+                and isinstance(st.value.value, ast.Name) and st.value.value.id in operand_pos and isinstance(st.targets[0].elts[0], ast.Name):
+            value_side[st.targets[0].elts[0].id] = operand_pos[st.value.value.id]
     for c in lookups:
         keyt = c.args[0]
         first = dotted(keyt.elts[0])
-        # the variable r = table.get(...) is then indexed
+        if first not in value_side:
+            raise AnalysisError(f"Rewriter._compare: cannot tell which operand `{first}` is the constant value of")
+        side = value_side[first]
+        # the variable bound to table.get(...) is then indexed
         par = c._parent
+        tgt = dotted(par.targets[0]) if isinstance(par, ast.Assign) else None
         idx = None
         blk = par._parent
         for n in ast.walk(blk):
-            if isinstance(n, ast.Assign) and isinstance(n.value, ast.Subscript) and dotted(n.value.value) == "r":
+            if isinstance(n, ast.Assign) and isinstance(n.value, ast.Subscript) and tgt is not None and dotted(n.value.value) == tgt:
                 idx = dotted(n.value.slice)
-        want = "relop_index" if first == "xvalue" else "swap_relop_index"
-        r.ob("R4.2", f"{REL}::Rewriter._compare {first}-side lookup uses {want}", idx == want, f"row indexed with `{idx}`", loc(REL, c))
+        want = "relop_index" if side == 0 else "swap_relop_index"
+        r.ob("R4.2", f"{REL}::Rewriter._compare {'left' if side == 0 else 'right'}-constant lookup uses {want}", idx == want, f"row indexed with `{idx}`", loc(REL, c))
 
     # ------------------------------------------------------------------ R4.3 rewrite rules on a finite model
     I = Interp(repo, max_steps=400_000_000)
